@@ -207,13 +207,18 @@ impl Prop for C09 {
             stats.hit("shape_tumbling");
             let w = rng.range(1, 12);
             (w, w)
-        } else {
+        } else if shape < 95 {
             stats.hit("shape_large");
             (rng.range(20, 120), rng.range(1, 40))
+        } else {
+            // dozens to hundreds of windows open at the same time (width / slide around and beyond 64, 100, 128)
+            stats.hit("shape_many_overlapping_windows");
+            (rng.range(60, 140), rng.range(1, 2))
         };
+        let many_open = shape >= 95;
         // stream
         let maxlen = if tier == Tier::Quick { 60 } else { 300 };
-        let len = if rng.chance(1, 4) { rng.range(1, 8) } else { rng.range(1, maxlen) };
+        let len = if many_open { width + rng.range(5, 60) } else if rng.chance(1, 4) { rng.range(1, 8) } else { rng.range(1, maxlen) };
         let kind = rng.below(100);
         let nitems = if rng.chance(1, 3) { rng.range(1, 4) } else { len + 1 };
         let mut t: usize = if rng.chance(1, 2) { 0 } else { rng.below(3 * slide.max(width) + 1) };
@@ -223,6 +228,7 @@ impl Prop for C09 {
         }
         let mut items: Vec<(usize, u32)> = Vec::new();
         let mut in_order = true;
+        let kind = if many_open && kind >= 30 { kind % 30 } else { kind };
         let gap_kind = if kind < 30 {
             stats.hit("stream_dense_gaps_le_slide");
             0
